@@ -36,12 +36,19 @@ NARROWING_ASSERTS = {
     "assertisinstance(request.stream,typing.AsyncIterable)": "request bodies in the async API are async iterables (enforce_stream wraps bytes)",
     "assertisinstance(request.stream,typing.Iterable)": "sync twin",
     "assertself.connectionisnotNone": "the event is set only by assign_to_connection after the field was stored; the pool never assigns None",
-    "assertisinstance(response,socksio.socks5.SOCKS5AuthReply)": "socksio reply type is determined by its connection state",
-    "assertisinstance(response,socksio.socks5.SOCKS5UsernamePasswordReply)": "socksio reply type is determined by its connection state",
-    "assertisinstance(response,socksio.socks5.SOCKS5Reply)": "socksio reply type is determined by its connection state",
+    "assertisinstance(<local>,socksio.socks5.SOCKS5AuthReply)": "socksio reply type is determined by its connection state",
+    "assertisinstance(<local>,socksio.socks5.SOCKS5UsernamePasswordReply)": "socksio reply type is determined by its connection state",
+    "assertisinstance(<local>,socksio.socks5.SOCKS5Reply)": "socksio reply type is determined by its connection state",
     "assertauthisnotNone": "USERNAME_PASSWORD is only requested when auth is not None and the reply method equals the requested one",
     "assertisinstance(stream,trio.SocketStream)": "backend internals",
 }
+
+def narrowing_key(construct: str) -> str:
+    """The socksio reply asserts are the same assert whatever the local that holds the reply is called."""
+    import re as _re
+
+    return _re.sub(r"^assertisinstance\((\w+),socksio\.socks5\.", "assertisinstance(<local>,socksio.socks5.", construct)
+
 
 ALLOWED_WITH_REASON = {
     "RuntimeError": "explicit misuse / wrong-origin guards (the pool filters by can_handle_request)",
@@ -178,7 +185,7 @@ def _judge(ctx: Context, tree: str, N: Names, entry: FuncInfo, level: str, s: Sr
     construct = s.origin.split("|", 1)[1] if "|" in s.origin else s.origin
     func_part = s.origin.split("|", 1)[0]
     if s.cls == "AssertionError":
-        key = construct
+        key = narrowing_key(construct)
         if key in NARROWING_ASSERTS:
             return
         seen[okey] = False
